@@ -63,7 +63,7 @@ def balanced(code):
 def generic_calls(code, name, open_b='<', close_b='>'):
     """Positions where `Name<balanced>(` occurs (not preceded by a word char or dot)."""
     res = []
-    for m in re.finditer(r'(?<![\w.])%s%s' % (re.escape(name), re.escape(open_b)), code):
+    for m in re.finditer(r'(?<![\w])%s%s' % (re.escape(name), re.escape(open_b)), code):
         j = m.end()
         depth = 1
         while j < len(code) and depth and code[j] not in '(){};\n':
@@ -287,6 +287,49 @@ class Monitor:
                                'function %s: return type %s but the text %s an annotation' % (
                                    f.name, 'present' if f.ret_type is not None else 'absent',
                                    'has' if annotated else 'lacks'), stage, expected=f.ret_type is not None)
+        # Groovy: a nested function is a closure variable; `def` iff its return type was omitted
+        if lang == 'groovy':
+            for f, anc in funcs:
+                if not any(isinstance(a, (ast.FunctionDeclaration, ast.Lambda)) for a in anc):
+                    continue
+                nm = ident(f.name, lang)
+                heads = re.findall(r'(\bdef|[\w>\]])\s+%s\s*=\s*\{' % nm, code)
+                if len(heads) != 1:
+                    continue
+                out.ev('annotations-checked')
+                is_def = heads[0] == 'def'
+                if f.ret_type is not None and type(f.ret_type).__name__ == 'VoidType':
+                    continue            # a closure without a result is declared with `def` either way
+                if is_def != (f.ret_type is None):
+                    self._viol('A-return-annotation',
+                               'nested function %s: return type %s but the closure is declared with %s' % (
+                                   f.name, 'present' if f.ret_type is not None else 'absent',
+                                   '`def`' if is_def else 'an explicit Closure type'), stage,
+                               expected=f.ret_type is not None)
+        # Kotlin / Scala: explicit type arguments of generic calls are printed iff the program carries them
+        if lang in KW:
+            by_fn = {}
+            for c in calls:
+                if c.is_ref_call:
+                    continue
+                d = by_fn.setdefault(str(c.func), [0, 0])
+                d[0 if (c.type_args and not c.can_infer_type_args) else 1] += 1
+            decl_generic = {}
+            for f, anc in funcs:
+                if f.type_parameters:
+                    decl_generic[str(f.name)] = decl_generic.get(str(f.name), 0) + 1
+            ob, cb = ('<', '>') if lang == 'kotlin' else ('[', ']')
+            for name, (n_exp, n_inf) in by_fn.items():
+                if not n_exp and name not in decl_generic:
+                    continue
+                exp = len(generic_calls(code.replace('`', ''), name, ob, cb)) if True else 0
+                if lang == 'scala':
+                    exp -= decl_generic.get(name, 0)
+                out.ev('generic-calls-checked', n_exp)
+                if exp != n_exp:
+                    self._viol('A-call-type-arguments',
+                               'function %s: %d calls carry explicit type arguments in the program, %d in the text' % (
+                                   name, n_exp, exp), stage)
         # counts (Kotlin / Scala): heads of each kind
         if lang in KW:
             n_cls = len(re.findall(r'\b%s\s+[`\w]' % KW[lang]['class'], code))
